@@ -80,7 +80,7 @@ CONFIG = {
         "not covered by the correspondence run: Reattach launches, CleanupClients, static TLSConfig, Windows (TCP listeners)",
     ],
     "timeout": {"quick": 600, "thorough": 3000},
-    "level_text": "Lean theorems over a resource ledger of one plugin session (Model/Resources.lean): every file go-plugin creates (main unix socket,  Fifth round: lns=3 cells (three brokered listeners per side accepted and left open at Kill; found and now guard the repaired defect D14), every listener GRPCBroker.Accept hands out is tracked and the closing loop of Close has no early exit; go-site table: 31 sites (the net/rpc server's per-server stdio readers are sites 30 and 31)."
+    "level_text": "Lean theorems over a resource ledger of one plugin session (Model/Resources.lean): every file go-plugin creates (main unix socket,  Fifth round: lns=3 cells (three brokered listeners per side accepted and left open at Kill; found and now guard the repaired defect D14), every listener GRPCBroker.Accept hands out is tracked and the closing loop of Close has no early exit; go-site table: 31 sites (the net/rpc server's per-server stdio readers are sites 30 and 31). Sixth round: C18.shared-usc (two custom-runner clients configured with one UnixSocketConfig value: each removes its own directory, neither the other's) and fact socketDirOwnedByClient (kill_removes_own_dir, shared_config_witness)."
                   "brokered sockets on both sides, the runner's socket directory) and every host goroutine (one entry per `go` statement that runs in the host role, "
                   "16 of the 28 sites, plus the caller parked in AcceptAndServe) carries a release condition over shutdown events; the Close call graph "
                   "(Kill -> client.Close -> broker.Close / Shutdown -> GRPCServer.Stop -> broker.Close -> AcceptAndServe's defer; Serve's deferred listener.Close "
